@@ -432,6 +432,7 @@ class Ops:
         """==/!= between sets, lists, shapes..."""
         if isinstance(a, SetV) and isinstance(b, SetV) and isinstance(op, (ast.Eq, ast.NotEq)):
             eq = self.sets_equal(a, b)
+            self.ev("set_compare", node, left=repr(a)[:120], right=repr(b)[:120], left_atoms=sorted(a.atoms), right_atoms=sorted(b.atoms), equal=eq)
             if eq is None:
                 return TV(kind="pybool", dtype="Bool", note="set-compare")
             return Const(eq if isinstance(op, ast.Eq) else not eq)
@@ -531,7 +532,7 @@ class Ops:
             k = int(tn.poly.const_value())
             return ListV(items=lst.items * k, kind=lst.kind)
         e = lst.elem if lst.items is None else self.set_elem(SetV(items=lst.items))
-        return ListV(items=None, elem=e, kind=lst.kind, order=("repeat", "const"), length=n)
+        return ListV(items=None, elem=e, kind=lst.kind, order=(("repeat",), "const"), length=n)
 
     def dict_union(self, a, b, node):
         pa = a.payload if isinstance(a, ObjV) else a
@@ -543,7 +544,7 @@ class Ops:
             kb = self.dict_keys(pb)
             va = self.dict_val(pa)
             vb = self.dict_val(pb)
-            keys = self.set_binop(self.to_set(ka, node), ast.BitOr(), self.to_set(kb, node), node) if ka is not None and kb is not None else (ka or kb)
+            keys = self.union_keys(ka, kb, node)
             if pa.items is not None and len(pa.items) == 0:
                 keys, val = kb, vb
             elif pb.items is not None and len(pb.items) == 0:
@@ -552,6 +553,23 @@ class Ops:
                 val = va if vb is None else (vb if va is None else join(va, vb))
             return DictV(items=None, keys=keys, val=val)
         return self.unk("dict union", node)
+
+    def union_keys(self, ka, kb, node):
+        """Key collection of ``a | b`` (insertion order: keys of a, then the new keys of b)."""
+        if ka is None or kb is None:
+            return ka or kb
+        la = ka if isinstance(ka, ListV) else None
+        lb = kb if isinstance(kb, ListV) else None
+        if la is not None and lb is not None and la.items is None and lb.items is None:
+            aa, ab = self.atoms_of(la), self.atoms_of(lb)
+            if aa and aa == ab:
+                return la
+            e = join(la.elem, lb.elem) if la.elem is not None and lb.elem is not None else (la.elem or lb.elem)
+            oa = tuple(la.order[0]) if la.order else ()
+            ob = tuple(lb.order[0]) if lb.order else ()
+            mode = "same" if la.order and lb.order and la.order[1] == "same" and lb.order[1] == "same" else "mixed"
+            return ListV(items=None, elem=e, order=(oa + tuple(x for x in ob if x not in oa), mode))
+        return self.set_binop(self.to_set(ka, node), ast.BitOr(), self.to_set(kb, node), node)
 
     @staticmethod
     def dict_keys(d: DictV):
@@ -789,6 +807,8 @@ class Ops:
         return ExtMethodV(obj, attr)
 
     def class_attr(self, cv, attr, node, env):
+        if attr == "mro":
+            return ExtMethodV(cv, attr)
         return self.unk(f"class attribute {attr}", node)
 
     def ext_attr(self, base: ExtV, attr, node, env):
